@@ -353,12 +353,44 @@ class Tracker:
             t = b["term"]
             if t["k"] == "call" and t.get("d"):
                 bad.add(t["d"][0])
+        # … or travels as a constant component of a tuple built on each side: `let (m, first) = match lvl { First(m) => (m, true), Additional(m) => (m, false) }`
+        tup = {}
+        tbad = set()
+        for b in blocks:
+            for s in b["stmts"]:
+                if len(s["d"]) != 1:
+                    continue
+                rv = s["rv"]
+                if rv["k"] == "agg" and rv.get("ak") == "tuple":
+                    for i_, o in enumerate(rv["ops"]):
+                        if o[0] == "c" and o[1] in ("true", "false"):
+                            tup.setdefault((s["d"][0], i_), []).append((b["id"], o[1] == "true"))
+                        else:
+                            tbad.add((s["d"][0], i_))
+                elif s["d"][0] in {k[0] for k in tup}:
+                    tbad |= {k for k in tup if k[0] == s["d"][0]}
+        for b in blocks:
+            for s in b["stmts"]:
+                rv = s["rv"]
+                if len(s["d"]) == 1 and rv["k"] == "use" and rv["a"][0] in ("cp", "mv") and len(rv["a"][1]) == 2 and rv["a"][1][1].startswith(".") and rv["a"][1][1][1:].isdigit():
+                    key = (rv["a"][1][0], int(rv["a"][1][1][1:]))
+                    x = s["d"][0]
+                    if key in tup and key not in tbad and x in bad and x not in defs:
+                        # x has this single definition: its value sites are the tuple's construction sites
+                        ndef = sum(1 for b2 in blocks for s2 in b2["stmts"] if s2["d"] == [x]) + sum(1 for b2 in blocks if b2["term"]["k"] == "call" and (b2["term"].get("d") or [None])[0] == x)
+                        if ndef == 1:
+                            defs[x] = list(tup[key])
+                            bad.discard(x)
         g = self.g
         added = False
-        free_acc = g.reach((0,), cut=self.accept) if self.accept else None
-        free_rej = g.reach((0,), cut=self.reject) if self.reject else None
-        after_acc = g.reach(tuple(d for _, d in self.accept)) if self.accept else set()
-        after_rej = g.reach(tuple(d for _, d in self.reject)) if self.reject else set()
+        # "behind an accepting edge" = the last decision of the guard on the way was an accept (in a loop the guard is decided anew each
+        # time round): not reachable from the entry or from a rejecting edge without crossing an accepting one; "never after an accepting
+        # edge" = not reachable from one without the guard being decided again
+        both = set(self.accept) | set(self.reject)
+        free_acc = g.reach((0,) + tuple(d for _, d in self.reject), cut=self.accept) if self.accept else None
+        free_rej = g.reach((0,) + tuple(d for _, d in self.accept), cut=self.reject) if self.reject else None
+        after_acc = g.reach(tuple(d for _, d in self.accept), cut=both) if self.accept else set()
+        after_rej = g.reach(tuple(d for _, d in self.reject), cut=both) if self.reject else set()
         for l, ds in defs.items():
             if l in bad or l in self.states or len(ds) < 2:
                 continue
@@ -692,20 +724,28 @@ def _whole_aliases(body, seeds):
     S = set(seeds)
     if not S:
         return S
+    # a *must* alias: every definition of the local is such a copy (a variable that is the argument on one path and something built
+    # from it on another — `let data = if small { pad(data) } else { data }` — is not the argument)
+    defs = {}
+    for b in body.blocks:
+        if b["cleanup"]:
+            continue
+        for st in b["stmts"]:
+            if st["d"]:
+                rv = st["rv"]
+                p = rv["a"][1] if rv["k"] == "use" and rv["a"][0] in ("cp", "mv") else rv.get("p") if rv["k"] == "ref" else None
+                whole = p[0] if (len(st["d"]) == 1 and p and all(e == "*" for e in p[1:])) else None
+                defs.setdefault(st["d"][0], []).append(whole)
+        t = b["term"]
+        if t["k"] in ("call", "yield") and t.get("d"):
+            defs.setdefault(t["d"][0], []).append(None)
     changed = True
     while changed:
         changed = False
-        for b in body.blocks:
-            if b["cleanup"]:
-                continue
-            for st in b["stmts"]:
-                if len(st["d"]) != 1 or st["d"][0] in S:
-                    continue
-                rv = st["rv"]
-                p = rv["a"][1] if rv["k"] == "use" and rv["a"][0] in ("cp", "mv") else rv.get("p") if rv["k"] == "ref" else None
-                if p and p[0] in S and all(e == "*" for e in p[1:]):
-                    S.add(st["d"][0])
-                    changed = True
+        for l, ds in defs.items():
+            if l not in S and ds and all(w is not None and w in S for w in ds):
+                S.add(l)
+                changed = True
     return S
 
 
